@@ -925,10 +925,12 @@ def concatenate_ds(datasets, axis=0, align=False, **kwargs):
         else:
             assert sorted(ds.keys()) == sorted(variables), "variables differ across datasets"
 
+    # axis name: a position refers to the dataset's dimensions, not to each variable's
+    axis = datasets[0].axes[axis].name
+
     if align:
         # all dataset axes
-        axis_nm = datasets[0].axes[axis].name
-        aligned_dims = [d for d in _get_dims(*datasets) if d != axis_nm]
+        aligned_dims = [d for d in _get_dims(*datasets) if d != axis]
         for d in aligned_dims:
             datasets = da.align(datasets, axis=d, strict=True, **kwargs)
 
